@@ -705,9 +705,79 @@ def acqLogHyp (log : List LogEntry) (planned : List Sample) : Bool :=
   decide (planned.map (·.file) = log.map logName)
 
 /-- `load`: binary first, CSV import on any exception -/
-def load {β : Type} (bin : Except Err (Image β)) (csv : Except Err (Image β)) : Except Err (Image β) :=
+def load {γ : Type} (bin : Except Err γ) (csv : Except Err γ) : Except Err γ :=
   match bin with
   | .ok r => .ok r
   | .error _ => csv
+
+/-! ## 9. the entry points with their options
+
+`load_binary(path, collection_methods=None, counts_per_second=False, drop_names=None, full=False)`,
+`load_csv(path, collection_methods=None, use_acq_for_names=True, drop_names=None, full=False)` and
+`load(path, collection_methods=None, use_acq_for_names=True, counts_per_second=False, drop_names=None,
+full=False)`: an option the caller omits takes the default of the signature; `drop_names` is left at
+its default (the time column is dropped).  With `full` the functions return `(data, params)`,
+otherwise `data` alone. -/
+
+/-- what an entry point returns: the image, and `params["times"]` when `full` (`none`: the bare
+array was returned; `params["scantime"]` is derived from the times) -/
+structure Returned (β : Type) where
+  names : List Name
+  img : List (List (List β))
+  params : Option (List (List Rat))
+
+/-- the image part of a return value -/
+def Returned.image {β : Type} (r : Returned β) : List Name × List (List (List β)) := (r.names, r.img)
+
+/-- the options of a call; `none` = the caller omitted the argument -/
+structure CallOpts where
+  methods : Option (List Method)
+  cps : Option Bool
+  useAcq : Option Bool
+  full : Option Bool
+
+/-- `if collection_methods is None: collection_methods = ["batch_xml", "batch_csv"]` -/
+def defaultMethods : List Method := [.batchXml, .batchCsv]
+
+def CallOpts.methodsV (o : CallOpts) : List Method := o.methods.getD defaultMethods
+def CallOpts.cpsV (o : CallOpts) : Bool := o.cps.getD false
+def CallOpts.useAcqV (o : CallOpts) : Bool := o.useAcq.getD true
+def CallOpts.fullV (o : CallOpts) : Bool := o.full.getD false
+
+/-- specification of the return shape: the image as it is; the times only when `full` -/
+def retOf {β : Type} (full : Bool) (im : Image β) : Returned β :=
+  { names := im.names, img := im.img, params := if full then some im.times else none }
+
+/-- `load_binary` with its options, in the order of the code: the lines are stacked; `if full:` the
+params are read from the stacked array; `if counts_per_second:` every mass field is divided
+(`divide`, `cps` for rational values); the time field is dropped; `(data, params)` or `data` is returned. -/
+def loadBinaryCall {α : Type} (m : Meta) (files : List (DataFile α)) (masses : Option (List MassInfo))
+    (divide : List MassInfo → Image α → Image α) (o : CallOpts) : Except Err (Returned α) := do
+  let data ← loadBinary m files masses o.methodsV
+  let params := if o.fullV then some data.times else none
+  let data := if o.cpsV then divide (masses.getD []) data else data
+  if o.fullV then pure { names := data.names, img := data.img, params := params }
+  else pure { names := data.names, img := data.img, params := none }
+
+/-- specification: the specified image, divided when counts per second are asked for, in the return
+shape `full` asks for -/
+def loadBinaryCallSpec {α : Type} (m : Meta) (files : List (DataFile α)) (masses : List MassInfo)
+    (divide : List MassInfo → Image α → Image α) (o : CallOpts) : Except Err (Returned α) :=
+  (loadBinarySpec m files masses o.methodsV).map
+    (fun im => retOf o.fullV (if o.cpsV then divide masses im else im))
+
+/-- `load_csv` with its options; `acq = some names` when AcqMethod.xml exists (its element names) -/
+def loadCsvCall {α : Type} (m : Meta) (files : List (DataFile α)) (acq : Option (List Name))
+    (o : CallOpts) : Except Err (Returned Rat) := do
+  let data ← loadCsv m files (if o.useAcqV then acq else none) o.methodsV
+  let params := if o.fullV then some data.times else none
+  if o.fullV then pure { names := data.names, img := data.img, params := params }
+  else pure { names := data.names, img := data.img, params := none }
+
+/-- specification: `tbl` = the names of the batch's own mass table, used when the method file
+supplies the names -/
+def loadCsvCallSpec {α : Type} (m : Meta) (files : List (DataFile α)) (acq : Option (List Name))
+    (tbl : List Name) (o : CallOpts) : Except Err (Returned Rat) :=
+  (loadCsvSpec m files (if o.useAcqV && acq.isSome then some tbl else none) o.methodsV).map (retOf o.fullV)
 
 end Pew.Agilent
